@@ -93,6 +93,37 @@ EDIT_CONFIGS = [
 ]
 
 
+# Decoder-side queries (import / reference decoder).  A symbolic-length field makes the record length
+# symbolic, and from then on CBMC's executor cannot resolve the tag switch of any later loop iteration, so
+# focused fields are only used in records of one or two fields; longer records use concrete numbers.
+DECODE_CONFIGS = [
+    (0, 0, 0, 8, 8, 0, 0, 2, 1 << 0, 0, 0),
+    (0, 0, 0, 8, 8, 0, 1, 4, 1 << 1, 0, 0),
+    (0, 0, 0, 8, 8, 0, 2, 8, 1 << 2, 0, 0),
+    (0, 0, 0, 8, 8, 0, 3, 16, 1 << 3, 0, 0),
+    (0, 0, 0, 8, 8, 2, 5, 3, 1 << 0, 0, 0),
+    (0, 0, 0, 8, 8, 3, 4, 1, 0, 0, 1),
+    (0, 0, 0, 8, 8, 0, 5, 0, 0, 0, 0),
+    (0, 0, 0, 8, 8, 4, 6, 21, 0, 0, 0),
+    (0, 0, 0, 8, 8, 2, 7, 10, 0, 0, 0),
+    (0, 0, 0, 8, 8, 26, 8, 31, 0, 0, 0),
+    (0, 1, 0, 8, 8, 0, 0, 0, (1 << 4) | (1 << 11), 0, 0),
+    (0, 2, 0, 8, 8, 0, 3, 0, (1 << 5) | (1 << 12), 0, 0),
+    (0, 2, 0, 8, 8, 0, 5, 2, 0, 0, 0),
+    (0, 0, 1, 8, 8, 0, 1, 0, 1 << 10, 0, 0),
+    (0, 0, 1, 8, 9, 0, 2, 0, 1 << 10, 0, 0),
+    (0, 0, 1, 8, 10, 0, 4, 0, 1 << 10, 0, 0),
+    (1, 0, 0, 8, 9, 0, 0, 0, 1 << 6, 0, 0),
+    (1, 0, 0, 9, 10, 0, 5, 0, 1 << 7, 0, 0),
+    (1, 0, 0, 10, 8, 0, 7, 0, 1 << 13, 0, 0),
+    (2, 0, 0, 8, 9, 0, 9, 0, (1 << 8) | (1 << 14), 0, 0),
+    (2, 2, 1, 9, 10, 3, 0, 31, 0, 0, 0),
+    (2, 2, 1, 8, 9, 3, 4, 31, 0, 0, 0),
+    (2, 2, 1, 10, 8, 3, 8, 29, 0, 0, 0),
+    (1, 1, 1, 8, 8, 2, 6, 31, 0, 0, 0),
+]
+
+
 def edit_cfg(mode, c, tier="quick"):
     o = edit_obl(mode, c[0], c[1], c[2], c[3], c[4], c[5], c[6], mask=c[7], focus=c[8], symp=c[9], tier=tier)
     if c[10]:
@@ -101,10 +132,12 @@ def edit_cfg(mode, c, tier="quick"):
     return o
 
 
-for mode in (0, 2, 3):
-    for c in EDIT_CONFIGS:
+for c in EDIT_CONFIGS:
+    OBLIGATIONS.append(edit_cfg(0, c))
+for mode in (2, 3):
+    for c in DECODE_CONFIGS:
         OBLIGATIONS.append(edit_cfg(mode, c))
-OBLIGATIONS.append(edit_cfg(4, (1, 1, 1, 8, 8, 2, 2, 31, 1 << 7, 0, 0)))
+OBLIGATIONS.append(edit_cfg(4, (1, 1, 1, 8, 8, 2, 2, 31, 0, 0, 0)))
 
 META = {
     "level": "model_checking",
